@@ -51,6 +51,50 @@ fn case_strategy() -> impl Strategy<Value = Case> {
 }
 
 pub fn case_strategy_with(max_body: u32) -> impl Strategy<Value = Case> {
+    case_strategy_n(max_body, 1, 6)
+}
+
+/// Long pipelines: 17-48 small requests that are all on the wire before the first (slow) handler
+/// answers, so more requests are decoded ahead of their responses than the dispatcher's nominal
+/// queue length (it decodes everything one read buffer holds).
+fn case_strategy_long() -> impl Strategy<Value = Case> {
+    (case_strategy_n(120, 17, 49), 20u16..300, any::<bool>()).prop_map(|(mut c, first_delay, whole)| {
+        if c.ka == KaCfg::Disabled {
+            c.ka = KaCfg::Timeout(5000);
+        }
+        for a in c.arrival.iter_mut() {
+            *a = 0;
+        }
+        if whole {
+            c.seg = SegSpec::whole();
+        }
+        c.seg.one_byte = false;
+        c.expect_reject = false;
+        for (i, p) in c.progs.iter_mut().enumerate() {
+            p.pre_delay_ms = if i == 0 { first_delay } else { p.pre_delay_ms.min(3) };
+            p.post_delay_ms = p.post_delay_ms.min(3);
+            p.read_pace_ms = 0;
+            // (the listed 304-with-body class would exclude most long cases)
+            if p.resp.status == 304 {
+                p.resp.status = 200;
+            }
+            // small responses: the point is the framing context, not the volume
+            for ch in p.resp.body.chunks.iter_mut() {
+                ch.len = ch.len.min(300);
+            }
+            if let BodyKind::SizedStream(d) | BodyKind::Custom(CustomHint::Sized(d)) = &mut p.resp.body.kind {
+                *d = (*d).min(2000);
+            }
+        }
+        for r in c.reqs.iter_mut() {
+            r.expect = false;
+        }
+        normalize(&mut c);
+        c
+    })
+}
+
+fn case_strategy_n(max_body: u32, lo: usize, hi: usize) -> impl Strategy<Value = Case> {
     (
         prop_oneof![6 => Just(KaCfg::Timeout(5000)), 1 => Just(KaCfg::Os), 1 => Just(KaCfg::Disabled)],
         prop_oneof![1 => Just(1u32), 1 => Just(512u32), 3 => Just(32_768u32), 1 => 2u32..5000],
@@ -68,7 +112,7 @@ pub fn case_strategy_with(max_body: u32) -> impl Strategy<Value = Case> {
                 gen::handler_prog(BODY_OPTS, false),
                 gen::delay(5),
             ),
-            1..6,
+            lo..hi,
         ),
         gen::seg_spec(),
         any::<bool>(),
@@ -421,7 +465,11 @@ pub fn build_scenario(case: &Case, only: Option<usize>, finding_halfclose: bool)
             }
         }
     }
-    let big = reqs.iter().any(|r| r.body_len() >= 32_768);
+    // listed finding half-close-discards-buffered-body: an EOF that arrives while received body
+    // bytes are still undecoded fails that body. Bytes stay undecoded under payload back-pressure
+    // (bodies >= 32 KiB) or while the pipelined-request queue is full (more than 16 requests): in
+    // those classes the peer waits for the server to close instead of half-closing early.
+    let big = reqs.iter().any(|r| r.body_len() >= 32_768) || (reqs.len() > 16 && reqs.iter().any(|r| r.body_len() > 0));
     if case.eof_after && !(finding_halfclose && big) {
         ops.push(PeerOp::Eof);
     } else {
@@ -800,7 +848,7 @@ fn run_case_inner(
 
 pub fn run(cfg: &RunCfg) -> Report {
     let mut rep = Report::new("C02");
-    rep.rule = "cases = pipeline of 1-5 valid requests (GET/HEAD/POST/PUT, HTTP/1.0 and 1.1, Connection options, Expect) x per-request handler program (delays, body reading, status incl. 204/304, body kind: unit/Bytes/SizedStream exact-short-long/BodyStream/custom MessageBody with size hints, empty chunks, Pending patterns, error at end/echo of the request body; user Content-Length/Transfer-Encoding headers, no_chunking, force_close) x arrival delays x segmentation x write-buffer size x keep-alive config; \
+    rep.rule = "cases = pipeline of 1-5 valid requests (GET/HEAD/POST/PUT, HTTP/1.0 and 1.1, Connection options, Expect) x per-request handler program (delays, body reading, status incl. 204/304, body kind: unit/Bytes/SizedStream exact-short-long/BodyStream/custom MessageBody with size hints, empty chunks, Pending patterns, error at end/echo of the request body; user Content-Length/Transfer-Encoding headers, no_chunking, force_close) x arrival delays x segmentation x write-buffer size x keep-alive config; phase long-pipeline: 17-48 small requests, all on the wire before the first (slow, 20-300 ms) handler answers; \
                 non-trivial = >=2 requests, a non-fixed-size body kind or HEAD/204/304 present, and the overlap window (request i+1 dispatched before response i fully written) was open; distinct by hash of the case"
         .into();
     rep.assumptions = vec![
@@ -811,6 +859,7 @@ pub fn run(cfg: &RunCfg) -> Report {
     runner::replay_pinned(&mut rep, cfg, &replay);
     runner::replay_regress(&mut rep, cfg, &replay);
     explore(&mut rep, cfg, "pipeline", cfg.cases(400_000, 6_000_000), case_strategy, |c| run_case(cfg, c, false));
+    explore(&mut rep, cfg, "long-pipeline", cfg.cases(20_000, 300_000), case_strategy_long, |c| run_case(cfg, c, false).class("long-pipeline"));
     rep
 }
 
